@@ -257,13 +257,18 @@ func c16Run(c c16Case, o *hx.Obs) {
 			o.Class("the guarded node has a when of its own that %s", c.Own)
 		}
 	case "augment-when":
-		m.Top = []*dm.Node{{Kind: "container", Name: "c", Children: []*dm.Node{zLeaf(), str("out")}}}
-		m.Extra = "augment \"/c\" { when " + dm.QuoteYang(expr) + "; leaf y { type string; } }"
-		cc := dm.Tree{"y": "guarded", "out": "x"}
+		own := ""
+		if c.Own != "" {
+			own = " when \"w='on'\";"
+			o.Class("the guarded node has a when of its own that %s", c.Own)
+		}
+		m.Top = []*dm.Node{{Kind: "container", Name: "c", Children: []*dm.Node{zLeaf(), str("out"), str("w")}}}
+		m.Extra = "augment \"/c\" { when " + dm.QuoteYang(expr) + "; leaf y {" + own + " type string; } }"
+		cc := dm.Tree{"y": "guarded", "out": "x", "w": map[string]string{"": "on", "holds": "on", "fails": "off"}[c.Own]}
 		setZ(cc, 0)
 		data["c"] = cc
 		wc := dm.CloneTree(cc)
-		if !holds[0] {
+		if !holds[0] || c.Own == "fails" {
 			delete(wc, "y")
 		}
 		want["c"] = wc
@@ -306,7 +311,7 @@ func c16Run(c c16Case, o *hx.Obs) {
 	case "uses-when":
 		modelRoot = &dm.Node{Kind: "module", Name: "gm", Children: append([]*dm.Node{str("y"), str("y2")}, m.Top...)}
 	case "augment-when":
-		modelRoot = &dm.Node{Kind: "module", Name: "gm", Children: []*dm.Node{{Kind: "container", Name: "c", Children: []*dm.Node{zLeaf(), str("out"), str("y")}}}}
+		modelRoot = &dm.Node{Kind: "module", Name: "gm", Children: []*dm.Node{{Kind: "container", Name: "c", Children: []*dm.Node{zLeaf(), str("out"), str("w"), str("y")}}}}
 	}
 	mm, err := loadDM(m)
 	if err != nil {
@@ -519,7 +524,7 @@ func c16Gen(t *rapid.T) c16Case {
 	c := c16Case{Base: rapid.SampledFrom(c16Bases).Draw(t, "base"), Placement: rapid.SampledFrom([]string{"container-when", "leaf-when", "list-when", "list-when-where", "uses-when", "augment-when", "where", "where", "filter"}).Draw(t, "placement"),
 		Edit: rapid.IntRange(0, 3).Draw(t, "edit") == 0, Spaces: rapid.Bool().Draw(t, "spaces"), Quoted: rapid.IntRange(0, 3).Draw(t, "quoted") == 0,
 		Shape: rapid.SampledFrom([]string{"", "", "", "nested", "nested2"}).Draw(t, "shape")}
-	if c.Placement == "uses-when" && !c.Edit {
+	if (c.Placement == "uses-when" || c.Placement == "augment-when") && !c.Edit {
 		c.Own = rapid.SampledFrom([]string{"", "holds", "fails"}).Draw(t, "own-when")
 	}
 	ops := []string{"=", "!=", "<", "<=", ">", ">="}
